@@ -48,7 +48,10 @@ class StreamBoard(Board):
             arm.is_wait_for_interrupt = arm.is_wait_for_event = False
             self.count('probe.sleep-cancelled')
         force = spec.get('force')
-        if force is not None:
+        if force is not None and not force.get('thumb', 1):
+            r.cpsr.t = 0
+            r.cpsr.it = 0
+        elif force is not None:
             r.cpsr.t = 1
             if force['it'] is None:
                 p = pos + 1
